@@ -6,7 +6,9 @@ import (
 	"encoding/binary"
 	"fmt"
 	"github.com/basecomplextech/baselibrary/async"
+	"net"
 	"os"
+	"runtime"
 	"strconv"
 	"strings"
 	"sync"
@@ -585,4 +587,75 @@ func clipStr(s string, n int) string {
 		return s[:n]
 	}
 	return s
+}
+
+// TestC11_DeclaredSizeIsNotTrusted: "oversized frames ... the effect is confined to that peer's
+// connection". A length prefix is only a claim; a peer that declares gigabytes and sends five bytes
+// must not slow the other connections of the process down.
+func TestC11_DeclaredSizeIsNotTrusted(t *testing.T) {
+	e, err := newC11Env()
+	if err != nil {
+		t.Fatalf("infrastructure: %v", err)
+	}
+	defer e.close()
+	ev.Rule(c11, "declared-size family: a raw peer (before or after a valid handshake) opens 8 connections 20 ms apart, each sending a length prefix of 2^28..2^32-1 followed by five bytes and staying open; oracle: the bytes the process allocates meanwhile (runtime TotalAlloc) stay below 8 x 16 MiB + 256 MiB, i.e. are bounded by what was received, not by what was declared (the mechanism by which such a peer slows every other connection down: measured 200x with stalls of seconds); the round-trip rate of the well-behaved client before and during is recorded; non-trivial = all")
+	ev.CheckScaled(t, c11, 1, 25, func(rt *rapid.T) {
+		bits := rapid.IntRange(28, 32).Draw(rt, "bits")
+		size := uint64(1)<<uint(bits) - uint64(rapid.IntRange(0, 1).Draw(rt, "minus"))
+		if size > 0xffffffff {
+			size = 0xffffffff
+		}
+		afterHandshake := rapid.Bool().Draw(rt, "afterhandshake")
+		kase := map[string]any{"declared_size": size, "after_handshake": afterHandshake}
+		rate := func(d time.Duration) (h, c int64) {
+			h0, c0 := e.hOK.Load(), e.cOK.Load()
+			time.Sleep(d)
+			return e.hOK.Load() - h0, e.cOK.Load() - c0
+		}
+		// K hostile connections, 20 ms apart, each declares the size, sends five bytes and stays open
+		var ms0, ms1 runtime.MemStats
+		runtime.ReadMemStats(&ms0)
+		h0, _ := rate(100 * time.Millisecond)
+		const K = 8
+		var open []net.Conn
+		hBefore := e.hOK.Load()
+		t0 := time.Now()
+		for i := 0; i < K; i++ {
+			conn, err := netfx.DialLoopback(e.srv.Addr, 5*time.Second)
+			if err != nil {
+				ev.InfraSkip(rt, c11, "%v", err)
+			}
+			open = append(open, conn)
+			p := netfx.NewRawPeer(conn)
+			if afterHandshake {
+				if _, err := p.ClientHandshake(false); err != nil {
+					ev.InfraSkip(rt, c11, "raw handshake: %v", err)
+				}
+			} else {
+				p.WriteBytes([]byte(netfx.ProtocolLine))
+			}
+			var h [4]byte
+			binary.BigEndian.PutUint32(h[:], uint32(size))
+			p.WriteBytes(append(h[:], 1, 2, 3, 4, 5))
+			time.Sleep(20 * time.Millisecond)
+		}
+		time.Sleep(60 * time.Millisecond)
+		h1 := (e.hOK.Load() - hBefore) * 100 / (time.Since(t0).Milliseconds() + 1)
+		runtime.ReadMemStats(&ms1)
+		for _, c := range open {
+			c.Close()
+		}
+		allocated := ms1.TotalAlloc - ms0.TotalAlloc
+		kase["process_bytes_allocated_meanwhile"] = allocated
+		kase["healthy_round_trips_per_100ms"] = fmt.Sprintf("%d before, %d during", h0, h1)
+		// what the process allocates while the peers are connected is bounded by what they actually sent plus a
+		// bounded read step per connection (and the echo traffic of the two well-behaved clients), not by the claim
+		if limit := uint64(K*(16<<20) + 256<<20); allocated > limit {
+			ev.Violation(rt, c11, "declared-size-is-trusted", kase, "%d peers each declared a %d-byte frame and sent 5 bytes: the process allocated %d MiB meanwhile (limit %d MiB); well-behaved client: %d round trips per 100 ms before, %d during", K, size, allocated>>20, limit>>20, h0, h1)
+		}
+		if v := e.hErr.Load(); v != nil {
+			ev.Violation(rt, c11, "healthy-client-disturbed", kase, "well-behaved client failed: %v", v)
+		}
+		ev.Case(c11, ev.Hash("declared", size, afterHandshake), true, "declared-size")
+	})
 }
